@@ -318,7 +318,7 @@ pub fn run(args: &Args) -> i32 {
         let v = check_case(&case).violations;
         return finish(args, ev, v, &|c| check_case(c).violations);
     }
-    let ms = crate::props::families::members(&["funcs", "leb", "fixtures", "locals", "ctrl", "idshift"], args, &mut ev);
+    let ms = crate::props::families::members(&["funcs", "leb", "fixtures", "locals", "ctrl", "idshift", "minimal"], args, &mut ev);
     let mut base: Vec<Case> = ms.iter().map(Case::of).collect();
     base.extend(crate::props::bodies::cases(args, &mut ev));
     let mut cases = vec![];
